@@ -167,8 +167,8 @@ def scenario(i, group, git, setvars, ident, root, issuances):
     env = {"PATH": os.path.join(TARGET, "repo", "debug") + ":" + os.environ.get("PATH", ""), "GIT_CONFIG_GLOBAL": "/dev/null"}
     gopts = {"env": cenv} if level == "global" else {}
     sp = dict(tag="C20/s%03d" % i, certs=[cert], hooks=[], cert_hooks=hooks, global_opts=gopts, account_hooks=(["git"] if git else []), include=[DEFAULT_HOOKS],
-              endpoints={"A": {"ca": {"validate": make_validator(settings), "offered": [chal], "authz_polls": 1}}}, steps=steps, env=env, timeout=90,
-              meta={"family": "default hooks", "group": group, "git": git, "vars_set": setvars, "identifier": ident, "identifiers": idents, "issuances": issuances, "level": level, "settings": {k: v for k, v in settings.items()}})
+              endpoints={"A": {"ca": {"validate": make_validator(settings), "offered": [chal], "authz_polls": i % 2}}}, steps=steps, env=env, timeout=90,
+              meta={"family": "default hooks", "sync_validation": i % 2 == 0, "group": group, "git": git, "vars_set": setvars, "identifier": ident, "identifiers": idents, "issuances": issuances, "level": level, "settings": {k: v for k, v in settings.items()}})
     return sp, settings
 
 
